@@ -47,6 +47,21 @@ thread_local! {
 /// Install (or remove) the environment of the current OS thread.
 pub fn install(env: Option<Rc<dyn Env>>) {
     ENV.with(|e| *e.borrow_mut() = env);
+    FORCE_COMPACTION.with(|f| f.set(false));
+}
+
+thread_local! {
+    static FORCE_COMPACTION: std::cell::Cell<bool> = const { std::cell::Cell::new(false) };
+}
+
+/// Fault point ("buggify"): while set, the in-flight request list is compacted on every poll
+/// instead of only when its vector happens to be exactly full. Reset by [install].
+pub fn set_force_compaction(on: bool) {
+    FORCE_COMPACTION.with(|f| f.set(on));
+}
+
+pub(crate) fn force_compaction() -> bool {
+    FORCE_COMPACTION.with(|f| f.get())
 }
 
 fn env() -> Rc<dyn Env> {
